@@ -233,6 +233,9 @@ def run(c):
         raise vlib.Inconclusive("SnapshotRoundTrip printed no geometries:\n" + r0.out[-1500:])
     geos = sorted(json.loads(m.group(1)))
     gsample = rng.sample(geos, min(len(geos), 12 if tier == "quick" else 150))
+    mb = re.search(r'<<\s*"BIG",\s*"(.*?)"\s*>>', r0.out, re.S)
+    big = sorted(json.loads(mb.group(1))) if mb else []
+    gsample += big[:2] if tier == "quick" else big
     frames = [((1., 1., 1.), (0., 0., 0.)), ((0.9, 1.3, 0.35), (0.1, -0.7, 3.3)), ((3.0e16, 1.0e16, 2.0e16), (-1.5e16, 0., 1.0e15))]
     sin, sout = os.path.join(rd, "snap.txt"), os.path.join(rd, "snap.ndjson")
     with open(sin, "w") as fh:
